@@ -12,8 +12,6 @@ EXPLANATION = ("static analysis: time_respecting_paths (with temporal_dag inline
 
 
 def run(repo: Repo, tier, rep: Report):
-    n = check_temporal_dag_window(repo, rep)
-    rep.floor("order types (temporal_dag window)", n, 100)
     from sa.core import AnalysisError
     from sa.absint import NeedZero
     from sa.dag_interp import check_dag_and_paths
@@ -28,4 +26,8 @@ def run(repo: Repo, tier, rep: Report):
                 raise
         if not rep.findings:
             raise
+    # the window construction over all orderings of start / end / first id / last id (after the interpretation on concrete
+    # ids, so that its findings stand when this symbolic check does not understand a rewritten prefix)
+    n = check_temporal_dag_window(repo, rep)
+    rep.floor("order types (temporal_dag window)", n, 100)
     rep.assume("node labels contain no '_' (the property's own restriction)")
